@@ -59,7 +59,7 @@ def ctx_of(fl):
 def run(ck):
     q = ck.quick()
     models.ilp_mc(ck, q)
-    stim = stimuli(ck.rng, 420 if q else 20000)
+    stim = stimuli(ck.rng, 420 if q else 8000)
     # the pinned examples
     stim += [{"vals": [10, 1], "k": 2, "o": "minsum", "kp": 0, "copies": [1, 1], "copies_scalar": True, "w": [10, 1], "cons": "none", "c": 0, "inject": ""},
              {"vals": [3, 3], "k": 2, "o": "minsum", "kp": 0, "copies": [1, 1], "copies_scalar": True, "w": [1, 2], "cons": "none", "c": 0, "inject": ""},
